@@ -198,6 +198,17 @@ impl TransportVisitor for V {
                 if let Some(Ok(tt)) = tt {
                     op!("transmit_complete", unsafe { n.transmit_complete(tt, &tx) });
                 }
+                // Two transmissions in flight: the second is submitted before the completion of
+                // the first (which the device has already used) has been consumed.
+                let (tx1, tx2) = (vec![1u8; 40], vec![2u8; 40]);
+                let ta = op!("transmit_begin(pipelined #1)", unsafe { n.transmit_begin(&tx1) });
+                let tb = op!("transmit_begin(pipelined #2)", unsafe { n.transmit_begin(&tx2) });
+                if let Some(Ok(ta)) = ta {
+                    op!("transmit_complete(pipelined #1)", unsafe { n.transmit_complete(ta, &tx1) });
+                }
+                if let Some(Ok(tb)) = tb {
+                    op!("transmit_complete(pipelined #2)", unsafe { n.transmit_complete(tb, &tx2) });
+                }
                 // Nothing may still refer to the local buffers when they go away.
                 co.borrow_mut().suppressed.clear();
             }
